@@ -160,6 +160,10 @@ def SSet.step (X : SSet) : Op → SSet × Res
     | (X1, .ok old) => (X1, .unset old)
     | (X1, .readOnly l) => (X1, .readOnly l)
   | .setParams ps => (setParams ps X, .done)
+  | .quirk n sc q =>
+    match X.getOrNew n sc with
+    | none => (X, .noVolatile)
+    | some X1 => (modifyVisible n (·.setQuirk q) X1, .done)
 
 def SSet.getScalar (X : SSet) (n : Name) : Option String := scalarOf (lookup X n)
 
@@ -172,6 +176,15 @@ def SSet.extendEnv1 (X : SSet) (n : Name) (v : String) : SSet :=
 def SSet.extendEnv (X : SSet) : List (Name × String) → SSet
   | [] => X
   | (n, v) :: t => (X.extendEnv1 n v).extendEnv t
+
+/-- POSIX XCU 2.5.3 "Shell Variables": IFS is set to `<space><tab><newline>` when the shell is invoked,
+    OPTIND is initialised to 1, the defaults of PS1, PS2 and PS4 are `"$ "`, `"> "` and `"+ "` -/
+def posixInitialValues : List (Name × String) :=
+  [("IFS", " \t\n"), ("OPTIND", "1"), ("PS1", "$ "), ("PS2", "> "), ("PS4", "+ ")]
+
+/-- POSIX: "LINENO — set by the shell to a decimal number representing the current sequential line
+    number (numbered starting with 1) within a script or function before it executes each command" -/
+def posixLineNumberVariable : Name := "LINENO"
 
 def SSet.run (X : SSet) : List Op → SSet
   | [] => X
